@@ -4,7 +4,9 @@ import json
 from collections.abc import Sequence
 from typing import TYPE_CHECKING, Any, Literal, Optional
 
+import duckdb
 import numpy as np
+import snowflake.connector.errors
 from duckdb import DuckDBPyConnection
 
 from fakesnow.conn import FakeSnowflakeConnection
@@ -103,6 +105,10 @@ def _insert_df(duck_conn: DuckDBPyConnection, df: pd.DataFrame, table_name: str)
         df[col] = df[col].apply(lambda x: json.dumps(x) if isinstance(x, (dict, list)) else x)
 
     escaped_cols = ",".join(f'"{col}"' for col in df.columns.to_list())
-    duck_conn.execute(f"INSERT INTO {table_name}({escaped_cols}) SELECT * FROM df")
+    try:
+        duck_conn.execute(f"INSERT INTO {table_name}({escaped_cols}) SELECT * FROM df")
+    except duckdb.ConnectionException as e:
+        # same error as the cursor raises on a closed connection
+        raise snowflake.connector.errors.DatabaseError(msg=e.args[0], errno=250002, sqlstate="08003") from None
 
     return duck_conn.fetchall()[0][0]
